@@ -20,6 +20,7 @@ from ..worlds import confidence as W
 from ..worlds import pipeline as P
 
 PROPERTY = "C03"
+SCHED_PATH = ("sched",)
 LEVEL = "exploration"
 QUICK_N = 400
 SCENARIO_TIMEOUT = 180
